@@ -314,11 +314,8 @@ func fsck(r *Rig, nameMax uint64) (info *fsckInfo, err error) {
 			if name == "" || uint64(len(name)) > nameMax {
 				return info, ferr("name", "directory %s has an entry with an ill-formed name (%d bytes) for inode %d", it.path, len(name), cino)
 			}
-			for _, c := range []byte(name) {
-				if c == '/' || c == 0 {
-					return info, ferr("name", "directory %s has an entry whose name contains '/' or NUL", it.path)
-				}
-			}
+			// (names containing '/' or NUL: RFC 1813 leaves refusing them to the
+			// server, so storing one is not reported; see DESIGN.md section 4)
 			child := inodes[cino]
 			cpath := it.path + name
 			if child == nil || child.Kind == inode.NF3FREE {
